@@ -620,6 +620,26 @@ pub fn run(op: &str, a: &Args) -> Option<Args> {
             }
             Err(kd) => err(kd),
         },
+        // [value type] [layout] [keys, -1 = null] [dictionary values] [nf; desc; none?] [limit?] -> canonical sort_to_indices of the dictionary array
+        "c10.sort_dictionary" => {
+            let vt = ty_of(&a[0]);
+            let mut lay = Lay::from_group(&a[1]);
+            let keys = to_i64s(&a[2]);
+            let dvals = parse_col(&a[3]);
+            let values = build(&vt, &dvals, &mut lay);
+            let kv: Vec<i32> = keys.iter().map(|k| if *k < 0 { if lay.garbage && !dvals.is_empty() { lay.r.below(dvals.len()) as i32 } else { 0 } } else { *k as i32 }).collect();
+            let kvalid: Vec<bool> = keys.iter().map(|k| *k >= 0).collect();
+            let karr = Int32Array::new(ScalarBuffer::from(kv), nulls_of(&kvalid, &mut lay));
+            let dict = DictionaryArray::<Int32Type>::try_new(karr, values).unwrap();
+            let logical: Vec<OV> = keys.iter().map(|k| if *k < 0 { None } else { dvals[*k as usize].clone() }).collect();
+            match indices_out(sort_to_indices(&dict, opts_of(&a[4]), limit_of(&a[5]))) {
+                Ok(ix) => {
+                    if ix.iter().any(|i| *i as usize >= logical.len()) { return Some(err(E_OOB)) }
+                    vec![ix.iter().map(|i| BigInt::from(logical.iter().position(|v| *v == logical[*i as usize]).unwrap())).collect()]
+                }
+                Err(kd) => err(kd),
+            }
+        }
         // -> the sorted column itself (sort / sort_limit)
         "c10.sort" => {
             let (t, _, arr) = col_at(a, 0);
@@ -851,6 +871,23 @@ pub fn generate(tier: &str, r: &mut Rng, emit: &mut dyn FnMut(Case)) {
             let vals = gen_col(&t, n, r.below(3), r);
             let lims = vec![None, Some(1), Some(n / 20), Some(n / 2), Some(n - 1), Some(n + 1)];
             emit_sort_cases(&t, &vals, &lims, r, emit);
+        }
+    }
+
+    // ---- sort_dictionary with an explicit physical dictionary: null keys AND valid keys that point at null dictionary values
+    for vt in [I32, Utf8, F64, Bool, Utf8View, U8] {
+        for rep in 0..(3 * scale) {
+            let nvals = 1 + r.below(6);
+            let dvals = gen_col(&vt, nvals, r.below(3), r);
+            let n = if rep % 3 == 0 { r.below(6) } else { 6 + r.below(24) };
+            let keys: Vec<i64> = (0..n).map(|_| if r.chance(1, 5) { -1 } else { r.below(nvals) as i64 }).collect();
+            let lay = glay(r);
+            for (nf, desc) in [(false, false), (false, true), (true, false), (true, true)] {
+                for lim in limits_for(n, n <= 8 || thorough, r) {
+                    emit(Case::new("c10.sort_dictionary", vec![gty(&vt), lay.clone(), gs(&keys), gcol(&dvals), gopts(nf, desc, r), gopt(lim)],
+                        &["c10.sort_dictionary"], format!("sortdict {} {} nf{} d{}", tyname(&vt), nclass(n), nf as u8, desc as u8)));
+                }
+            }
         }
     }
 
